@@ -78,11 +78,15 @@ impl SimpleOpHeadsStore {
 
     fn add_op_head(&self, id: &OperationId) -> Result<(), PathError> {
         let path = self.dir.join(id.hex());
+        #[cfg(jj_vcs_jj_verif)]
+        let _verif = crate::verif_hooks::scope("opheads.add", &id.hex());
         std::fs::write(&path, "").context(path)
     }
 
     fn remove_op_head(&self, id: &OperationId) -> Result<(), PathError> {
         let path = self.dir.join(id.hex());
+        #[cfg(jj_vcs_jj_verif)]
+        let _verif = crate::verif_hooks::scope("opheads.remove", &id.hex());
         std::fs::remove_file(&path)
             .or_else(|err| {
                 if err.kind() == io::ErrorKind::NotFound {
@@ -136,6 +140,8 @@ impl OpHeadsStore for SimpleOpHeadsStore {
 
     async fn get_op_heads(&self) -> Result<Vec<OperationId>, OpHeadsStoreError> {
         let mut op_heads = vec![];
+        #[cfg(jj_vcs_jj_verif)]
+        let _verif = crate::verif_hooks::scope("opheads.read", &"");
         for op_head_entry in
             std::fs::read_dir(&self.dir).map_err(|err| OpHeadsStoreError::Read(err.into()))?
         {
@@ -162,6 +168,8 @@ impl OpHeadsStore for SimpleOpHeadsStore {
     }
 
     async fn lock(&self) -> Result<Box<dyn OpHeadsStoreLock + '_>, OpHeadsStoreError> {
+        #[cfg(jj_vcs_jj_verif)]
+        crate::verif_hooks::point("opheads.lock", &"");
         let lock = FileLock::lock(self.dir.join("lock"))
             .map_err(|err| OpHeadsStoreError::Lock(err.into()))?;
         Ok(Box::new(SimpleOpHeadsStoreLock { _lock: lock }))
